@@ -81,6 +81,7 @@ type world struct {
 
 	tracker k8stesting.ObjectTracker
 	initial *snapshot
+	cur     *snapshot // cached snapshot of the store; nil after any write
 
 	writes []write
 	reads  int
@@ -104,6 +105,7 @@ func configs() controllers.Configs {
 type snapshot struct {
 	Pods []*v1.Pod
 	PGs  []*v2alpha2.PodGroup
+	view *storeView // lazily computed; snapshots are immutable once taken
 }
 
 var (
@@ -161,14 +163,18 @@ func (w *world) reset(snap *snapshot) {
 	for _, p := range snap.Pods {
 		must(w.tracker.Create(podGVR, p.DeepCopy(), ns))
 	}
+	w.cur = snap
 	w.events.events = nil
 	w.writes, w.reads = nil, 0
 }
 
 // removePod deletes a pod from the store (models "this replica has not been created yet").
-func (w *world) removePod(name string) { must(w.tracker.Delete(podGVR, ns, name)) }
+func (w *world) removePod(name string) { w.cur = nil; must(w.tracker.Delete(podGVR, ns, name)) }
 
 func (w *world) snapshot() *snapshot {
+	if w.cur != nil {
+		return w.cur
+	}
 	s := &snapshot{}
 	var pl v1.PodList
 	must(w.raw.List(context.Background(), &pl))
@@ -180,6 +186,7 @@ func (w *world) snapshot() *snapshot {
 	for i := range gl.Items {
 		s.PGs = append(s.PGs, gl.Items[i].DeepCopy())
 	}
+	w.cur = s
 	return s
 }
 
@@ -348,6 +355,7 @@ func diffPodGroups(a, b *v2alpha2.PodGroup) []string {
 // reconcile runs ONE real PodReconciler.Reconcile for a pod and returns the mutating calls it issued.
 func (w *world) reconcile(pod string) (writes []write, reads int, err error) {
 	w.writes, w.reads = nil, 0
+	w.cur = nil
 	_, err = w.rec.Reconcile(context.Background(), ctrl.Request{NamespacedName: types.NamespacedName{Namespace: ns, Name: pod}})
 	return w.writes, w.reads, err
 }
@@ -371,6 +379,7 @@ type podView struct {
 }
 
 type storeView struct {
+	c    string    // cached canonical encoding
 	PGs  []pgView  `json:"podgroups"`
 	Pods []podView `json:"pods"`
 }
@@ -390,6 +399,9 @@ func ownerStr(o metav1.OwnerReference) string {
 // of the grouping-related metadata of the pods.
 func (w *world) view() *storeView {
 	s := w.snapshot()
+	if s.view != nil {
+		return s.view
+	}
 	v := &storeView{}
 	for _, g := range s.PGs {
 		pv := pgView{Name: g.Name, Labels: g.Labels, Annotations: g.Annotations, Spec: g.Spec, Status: g.Status}
@@ -404,13 +416,17 @@ func (w *world) view() *storeView {
 		v.Pods = append(v.Pods, podView{Name: p.Name, Group: g, HasGroup: ok, SubGroup: p.Labels[subGroupKey]})
 	}
 	sort.Slice(v.Pods, func(i, j int) bool { return v.Pods[i].Name < v.Pods[j].Name })
+	s.view = v
 	return v
 }
 
 func (v *storeView) canon() string {
-	b, err := json.Marshal(v)
-	must(err)
-	return string(b)
+	if v.c == "" {
+		b, err := json.Marshal(v)
+		must(err)
+		v.c = string(b)
+	}
+	return v.c
 }
 
 func (v *storeView) pg(name string) *pgView {
@@ -442,6 +458,7 @@ const (
 )
 
 func (w *world) foreign(kind, pgName string) error {
+	w.cur = nil
 	ctx := context.Background()
 	g := &v2alpha2.PodGroup{}
 	if err := w.raw.Get(ctx, types.NamespacedName{Namespace: ns, Name: pgName}, g); err != nil {
